@@ -22,7 +22,10 @@ RULE = (
     "(parents of 'sub modules of' at level < k) must have the same verdict on the limited and the "
     "unlimited architecture; (b) real project trees on tmpfs x every module_path x every k: the "
     "real scan with level_limit=k equals the model quotient of the real unlimited scan, with k "
-    "counted from module_path. A case is one (architecture, k) pair resp. one (architecture, k, "
+    "counted from module_path; (c) the same for a depth-4 skeleton project with exactly one import "
+    "statement at a time: every (importer file, target module, import form incl. relative "
+    "spellings through every ancestor package) x module_path x k x externals on/off, so no "
+    "second import can mask a lost edge. A case is one (architecture, k) pair resp. one (architecture, k, "
     "rule) triple; non-trivial = the quotient merges at least two modules"
 )
 ASSUMPTIONS = [
@@ -43,7 +46,11 @@ def plan(tier, seed):
         s["part"] = "graph"
         s["rules"] = True
     shards.append({"part": "scan", "bound": "real scans with level_limit"})
-    return {"shards": shards, "require_nonzero": ["quotient", "merging", "verdict:PASS", "verdict:FAIL", "scan"]}
+    n = len(skeleton_statements())
+    step = 24
+    for lo in range(0, n, step):
+        shards.append({"part": "skeleton", "lo": lo, "hi": lo + step, "bound": "single-statement skeleton scans with level_limit"})
+    return {"shards": shards, "require_nonzero": ["quotient", "merging", "verdict:PASS", "verdict:FAIL", "scan", "skeleton", "skeleton:edge-survives"]}
 
 
 def _count(t):
@@ -201,8 +208,122 @@ def scan_cases(res, only=None):
     return viol
 
 
+# ------------------------------------------------- (c) one import statement at a time
+
+SKELETON = {
+    "top/__init__.py": "",
+    "top/a.py": "",
+    "top/w/__init__.py": "",
+    "top/w/v.py": "",
+    "top/w/k/u.py": "",
+    "top/c/__init__.py": "",
+    "top/c/x.py": "",
+    "top/c/m/__init__.py": "",
+    "top/c/m/o/__init__.py": "",
+    "top/c/m/o/t.py": "",
+}
+
+
+def skeleton_modules():
+    mods = {"top"}
+    for rel in SKELETON:
+        parts = rel[:-3].split("/")
+        for i in range(1, len(parts) + 1):
+            mods.add(".".join(parts[:i]))
+    return sorted(mods)
+
+
+def skeleton_statements():
+    """Every (importer file, target module, import form): absolute import, from-import of the
+    module, from-import of a name in it, and the relative spellings through *every* ancestor
+    package of the importer that contains the target (so the dotted relative part has 0..3
+    components)."""
+    mods = skeleton_modules()
+    out = []
+    for rel in sorted(SKELETON):
+        imod = rel[:-3].replace("/", ".")
+        pkg = imod.rsplit(".", 1)[0]
+        for target in mods:
+            if target == imod or imod.startswith(target + ".") or target == "top":
+                continue
+            parent, _, leaf = target.rpartition(".")
+            forms = [("import", f"import {target}"), ("from", f"from {parent} import {leaf}"), ("from-name", f"from {target} import name")]
+            anc_, level = pkg, 1
+            while True:
+                if target.startswith(anc_ + "."):
+                    relname = target[len(anc_) + 1 :]
+                    rp, _, rl = relname.rpartition(".")
+                    dots = "." * level
+                    forms.append((f"rel{level}-from", f"from {dots}{rp} import {rl}"))
+                    forms.append((f"rel{level}-from-name", f"from {dots}{relname} import name"))
+                if "." not in anc_:
+                    break
+                anc_, level = anc_.rsplit(".", 1)[0], level + 1
+            for fid, stmt in forms:
+                out.append((rel, imod, target, fid, stmt))
+    return out
+
+
+def skeleton_cases(res, lo=0, hi=None, only=None):
+    base = scratch_dir(f"c09-skel-{lo}")
+    viol = []
+    try:
+        write_tree(base, SKELETON)
+        root = os.path.join(base, "top")
+        cases = skeleton_statements()
+        for rel, imod, target, fid, stmt in cases[lo:hi]:
+            path = os.path.join(base, rel)
+            with open(path, "w") as f:
+                f.write(stmt + "\n")
+            try:
+                for mp_rel in ("top", "top/w", "top/c"):
+                    mp_mod = mp_rel.replace("/", ".")
+                    if mp_rel != "top" and not imod.startswith(mp_mod + "."):
+                        continue
+                    mp = os.path.join(base, mp_rel)
+                    offset = mp_rel.count("/")
+                    for opts in ({}, {"exclude_external_libraries": False}):
+                        full = observed(scan(root, mp, **opts))
+                        maxdepth = max(m.count(".") for m in full[0]) - offset
+                        for k in range(1, max(1, maxdepth) + 1):
+                            key = [rel, stmt, mp_rel, k, sorted(opts)]
+                            if only is not None and only != key:
+                                continue
+                            lim = observed(scan(root, mp, level_limit=k, **opts))
+                            kk = k + offset
+                            exp_mods = {truncate(m, kk) for m in full[0]}
+                            exp_imps = {(truncate(u, kk), truncate(v, kk)) for u, v in full[1]}
+                            exp_imps = {(u, v) for u, v in exp_imps if u != v}
+                            exp_hier = {(p, c) for c in exp_mods for p in exp_mods if "." in c and c.rsplit(".", 1)[0] == p}
+                            exp_imps -= exp_hier
+                            if res is not None:
+                                res.states += 1
+                                res.transitions += 2
+                                res.traces += 1
+                                res.stats["skeleton"] += 1
+                                if exp_imps:
+                                    res.stats["skeleton:edge-survives"] += 1
+                                    res.nontrivial += 1
+                            got = (lim[0], lim[1] - exp_hier, lim[2])
+                            if got != (exp_mods, exp_imps, exp_hier):
+                                viol.append(("limited-scan-is-not-the-quotient", key,
+                                             {"modules": sorted(exp_mods), "imports": sorted(map(list, exp_imps))},
+                                             {"modules": sorted(lim[0]), "imports": sorted(map(list, lim[1]))}, fid))
+            finally:
+                with open(path, "w") as f:
+                    f.write("")
+    finally:
+        remove_scratch(base)
+    return viol
+
+
 def run_shard(shard, tier, seed):
     res = Result(shard["bound"])
+    if shard["part"] == "skeleton":
+        for kind, key, exp, got, fid in skeleton_cases(res, shard["lo"], shard["hi"]):
+            res.violation(kind, {"part": "skeleton", "key": key, "form": fid}, exp, got)
+        res.sample({"skeleton": sorted(SKELETON), "file": "top/w/v.py", "statement": "from ..c.m.o import t", "module_path": "top", "level_limit": 1})
+        return res
     if shard["part"] == "scan":
         for kind, key, exp, got in scan_cases(res):
             res.violation(kind, {"part": "scan", "key": key}, exp, got)
@@ -218,6 +339,9 @@ def run_shard(shard, tier, seed):
 
 
 def _check_case(case):
+    if case["part"] == "skeleton":
+        v = skeleton_cases(None, only=case["key"])
+        return (v[0][0], v[0][2], v[0][3]) if v else None
     if case["part"] == "scan":
         v = scan_cases(None, only=case["key"])
         return (v[0][0], v[0][2], v[0][3]) if v else None
@@ -243,6 +367,9 @@ def minimise(v):
         v = dict(v, case=case, expected=r[1], observed=r[2])
         rs = case.get("rule")
         v["signature"] = f"{v['kind']}:k{case['level_limit']}:edges{len(case['imports'])}" + (f":{rs['verb']}/{rs['exc']}" if rs else "")
+    elif case["part"] == "skeleton":
+        v = dict(v)
+        v["signature"] = f"{v['kind']}:skeleton:{case.get('form')}:{case['key'][2]}:k{case['key'][3]}"
     else:
         v = dict(v)
         v["signature"] = f"{v['kind']}:{case['key'][0]}:{case['key'][1]}:k{case['key'][2]}"
